@@ -217,6 +217,11 @@ func load(repo string, tests bool) *Ctx {
 			}
 			overlay, curPkgs, curFset = next, p2, fs
 		}
+		if d := os.Getenv("CHFCHECK_DUMP_OVERLAY"); d != "" {
+			for name, b := range overlay {
+				_ = os.WriteFile(filepath.Join(d, strings.ReplaceAll(strings.TrimPrefix(name, repo+"/"), "/", "__")), b, 0o644)
+			}
+		}
 		if overlay != nil {
 			pkgs, c.Fset = curPkgs, curFset
 			c.Normalised = true
